@@ -174,20 +174,33 @@ func c19Families(thorough bool) []*engine.IFamily {
 		Rule: "every whole second of a dense week (2024-02-26..2024-03-03, includes Feb 29); for every year 1..9999 the first and last second of every month and of 29 February; non-trivial: all (each exercises the textual form)",
 		Run: func(chunk int) engine.IResult {
 			var r engine.IResult
-			check := func(t time.Time) {
+			// the same instant expressed in other locations (a time.Time carries one) is the same instant
+			zones := []*time.Location{time.UTC, time.FixedZone("+02:00", 2*3600), time.FixedZone("-05:00", -5*3600), time.FixedZone("+05:30", 5*3600+1800)}
+			check1 := func(t time.Time, zone string) {
 				r.Evals++
 				r.Nontrivial++
 				a := model.NewAbsoluteOrRelativeTimeTypeFromTime(t)
 				back, err := a.GetTime()
-				if err != nil || !back.Equal(t) {
+				dt := model.NewDateTimeTypeFromTime(t)
+				back2, err2 := dt.GetTime()
+				if err != nil || !back.Equal(t) || err2 != nil || !back2.Equal(t) {
 					r.NFails++
 					if len(r.Fails) < 2 {
-						r.Fails = append(r.Fails, engine.IFail{Key: fmt.Sprintf("an instant with whole seconds does not survive the textual form | year-digits=%d", len(strconv.Itoa(t.Year()))),
-							Msg: fmt.Sprintf("%v -> %q -> %v (%v)", t, string(*a), back, err), Input: t.Format(time.RFC3339)})
+						r.Fails = append(r.Fails, engine.IFail{Key: fmt.Sprintf("an instant with whole seconds does not survive the textual form | year-digits=%d zone=%s", len(strconv.Itoa(t.UTC().Year())), zone),
+							Msg: fmt.Sprintf("%v -> %q -> %v (%v); DateTimeType %q -> %v (%v)", t, string(*a), back, err, string(*dt), back2, err2), Input: t.Format(time.RFC3339)})
 					}
 				}
+			}
+			check := func(t time.Time) {
+				for i, z := range zones {
+					// (years 1 and 9999 stay in UTC: shifted wall clocks would leave the four-digit year range)
+					if i > 0 && (t.Year() <= 1 || t.Year() >= 9999) {
+						continue
+					}
+					check1(t.In(z), z.String())
+				}
 				if len(r.Samples) < 1 {
-					r.Samples = append(r.Samples, fmt.Sprintf("%v -> %s", t.Format(time.RFC3339), string(*a)))
+					r.Samples = append(r.Samples, fmt.Sprintf("%v -> %s", t.Format(time.RFC3339), string(*model.NewAbsoluteOrRelativeTimeTypeFromTime(t))))
 				}
 			}
 			start := time.Date(2024, 2, 26, 0, 0, 0, 0, time.UTC)
